@@ -33,9 +33,10 @@ func (core *JApiCore) processContext(d *directive.Directive, root *[]*directive.
 						d.String(),
 					))
 				}
-				*root = append(*root, d)
-				core.currentContextDirective = d
-				return nil
+				// A method with its own path does not belong to the URL: the implicit URL context ends here and the
+				// method goes where the URL itself is (the root, or the MACRO body the URL was written in).
+				core.currentContextDirective = core.currentContextDirective.Parent
+				continue
 			}
 
 			d.Parent = core.currentContextDirective
